@@ -1,8 +1,10 @@
 package isaac
 
 import (
+	"bytes"
 	"encoding/json"
 	"net/url"
+	"sort"
 	"time"
 
 	"github.com/spikeekips/mitum/base"
@@ -103,15 +105,66 @@ func (f *BlockItemFile) UnmarshalJSON(b []byte) error {
 }
 
 type BlockItemFilesJSONMarshaler struct {
-	Items map[base.BlockItemType]base.BlockItemFile `json:"items"`
+	Items json.RawMessage `json:"items"`
 	hint.BaseHinter
 }
 
 func (f BlockItemFiles) MarshalJSON() ([]byte, error) {
+	bitems, err := f.marshalItemsJSON()
+	if err != nil {
+		return nil, err
+	}
+
 	return util.MarshalJSON(BlockItemFilesJSONMarshaler{
 		BaseHinter: f.BaseHinter,
-		Items:      f.items,
+		Items:      bitems,
 	})
+}
+
+// marshalItemsJSON marshals items to the json object, keyed by the item type.
+// The keys are ordered; same BlockItemFiles is always marshaled to the same
+// bytes.
+func (f BlockItemFiles) marshalItemsJSON() ([]byte, error) {
+	keys := make([]base.BlockItemType, len(f.items))
+
+	var n int
+
+	for i := range f.items {
+		keys[n] = i
+		n++
+	}
+
+	sort.Slice(keys, func(i, j int) bool {
+		return keys[i] < keys[j]
+	})
+
+	var b bytes.Buffer
+
+	_ = b.WriteByte('{')
+
+	for i := range keys {
+		if i > 0 {
+			_ = b.WriteByte(',')
+		}
+
+		k, err := util.MarshalJSON(keys[i])
+		if err != nil {
+			return nil, err
+		}
+
+		v, err := util.MarshalJSON(f.items[keys[i]])
+		if err != nil {
+			return nil, err
+		}
+
+		_, _ = b.Write(k)
+		_ = b.WriteByte(':')
+		_, _ = b.Write(v)
+	}
+
+	_ = b.WriteByte('}')
+
+	return b.Bytes(), nil
 }
 
 type BlockItemFilesJSONUnmarshaler struct {
